@@ -247,12 +247,13 @@ def fb_rule(chk, db):
 
 
 def fbg_rule(chk, db):
-    """FBG: a <cmath> function whose run-time path is the compiler builtin of an exactly specified function and whose
-    constant-evaluation path is the vendored constexpr implementation `detail::gcem::Y` agrees with itself only if Y
-    computes that exact function. Y's own body (and the helpers it calls, all inside include/etl/_3rd_party/gcem) is evaluated
-    over the floating-point class domain -- fractions on both sides of zero, ties, signed zeros, values below epsilon and
-    denormals, integers at and above 2^52, values beyond the range of long long, infinities, NaN -- and compared with the
-    closed form. An evaluation that converts an out-of-range value to an integer is not a constant expression."""
+    """FBG: a <cmath> function whose run-time path is the compiler builtin of an exactly specified function agrees with itself
+    only if its constant-evaluation path computes that exact function. The function's own body is evaluated with
+    `is_constant_evaluated()` true -- through the vendored constexpr implementation `detail::gcem::Y` and the helpers it calls
+    (all inside include/etl/_3rd_party/gcem), from their source -- over the floating-point class domain: fractions on both
+    sides of zero, ties, signed zeros, values below epsilon and denormals, integers at and above 2^52, values beyond the
+    range of long long, infinities, NaN; the result is compared with the closed form of the builtin. An evaluation that
+    converts an out-of-range value to an integer is not a constant expression."""
     from ..rules import floatdom as FD
     import math
     gc = {}
@@ -262,68 +263,73 @@ def fbg_rule(chk, db):
     specs = dict(FD.SPECS)
     specs["round"] = (1, lambda x: x if (math.isinf(x) or math.isnan(x)) else math.copysign(
         float(math.floor(abs(x) + 0.5)) if abs(x) < 2.0 ** 52 else abs(x), x))
+    helpers = dict((g["n"], g) for g in db.funcs if g["file"].startswith("_cmath/") and g.get("body") is not None
+                   and (g["n"].endswith("_fallback") or g["n"].endswith("_impl")))
     n = 0
     seen = set()
     for f in db.funcs:
-        if not f["file"].startswith("_cmath/") or f.get("body") is None:
+        if not f["file"].startswith("_cmath/") or f.get("body") is None or len(f["params"]) != 1:
             continue
         builtins = set()
-        gcalls = set()
+        dual = False
         for x in astx.all_exprs(f, into_lambdas=True):
             if x.get("k") != "call":
                 continue
             nm = astx.callee(x)[0] or ""
+            if nm == "is_constant_evaluated":
+                dual = True
             if nm.startswith("__builtin_"):
                 b = nm[len("__builtin_"):]
                 for suf in ("f", "l"):
                     if b.endswith(suf) and b[:-1] in specs:
                         b = b[:-1]
                 builtins.add(b)
-            qual = (x["f"].get("qual") or "") + (astx.callee(x)[1] or "")
-            if "gcem" in qual and nm in gc:
-                gcalls.add(nm)
-        for y in sorted(gcalls):
-            cands = [b for b in builtins if b == y and b in specs]
-            if not cands or y in seen:
+        cands = sorted(b for b in builtins if b in specs and specs[b][0] == 1)
+        if not dual or len(cands) != 1:
+            continue
+        y = cands[0]
+        key = (f["file"], f["n"], f.get("record"))
+        if key in seen:
+            continue
+        seen.add(key)
+        n += 1
+        construct = "%s (constant evaluation against __builtin_%s)" % (astx.sig(f), y)
+        chk.instance("FBG")
+        bad, unknown, cnt = [], None, 0
+        for a in FD.REPS_WIDE:
+            try:
+                want = specs[y][1](a)
+            except (OverflowError, ValueError):
                 continue
-            seen.add(y)
-            tops = [g for g in gc[y] if "internal" not in g["q"] and len(g["params"]) == specs[y][0]]
-            if not tops:
-                continue
-            n += 1
-            construct = "%s (constant evaluation of %s)" % (tops[0]["q"], astx.sig(f))
-            chk.instance("FBG")
-            bad, unknown, cnt = [], None, 0
-            FD.SPECS_SAVE = None
-            for a in FD.REPS_WIDE:
-                try:
-                    want = specs[y][1](a)
-                except (OverflowError, ValueError):
-                    continue
-                try:
-                    got = FD.call(tops[0], [a], gcem=gc)
-                except FD.NotConstant as u:
-                    got = "not a constant expression (%s)" % u
-                except FD.Unmodelled as u:
-                    unknown = str(u)
-                    break
-                cnt += 1
-                if not FD.same(got, want):
-                    bad.append((a, got, want))
-            if unknown:
-                chk.obligation("FBG", construct, None)
-                chk.unknown_instance("FBG", construct, unknown)
-                continue
-            chk.obligation("FBG", construct, not bad, evaluations=cnt)
-            for a, got, want in bad:
-                cls = ("below-epsilon" if 0 < abs(a) < 1e-10 else "beyond-long-long" if abs(a) >= 2.0 ** 63 else
-                       "negative-fraction" if -1 < a < 0 else "other")
-                chk.violation("FBG", "%s [%s]" % (construct, cls), "constexpr-differs", "%s: in constant evaluation %s(%r) is %s; the run-time "
-                              "path (__builtin_%s) gives %r" % (astx.loc(tops[0]), y, a, got if isinstance(got, str) else repr(got), y, want),
-                              {"where": astx.loc(tops[0]), "arg": repr(a)})
-    chk.extra["gcem_functions_evaluated"] = n
-    if n < 3:
-        chk.analysis_broken("FBG: only %d vendored constexpr implementations are paired with a builtin of the same function (floor 3)" % n)
+            tps = [tp["n"] for tp in (f.get("tparams") or [])]
+            ret = (f.get("ret") or "").strip()
+            int_tparams = [ret] if (y in ("lrint", "llrint", "lround", "llround") and ret in tps) else []
+            try:
+                got = FD.call(f, [a], True, int_tparams, helpers, gc)
+                if isinstance(want, int) and not isinstance(want, bool) and isinstance(got, float) and got == int(got):
+                    got = int(got)      # an integer result type: no signed zero
+            except FD.NotConstant as u:
+                got = "not a constant expression (%s)" % u
+            except FD.Unmodelled as u:
+                unknown = str(u)
+                break
+            cnt += 1
+            if not FD.same(got, want):
+                bad.append((a, got, want))
+        if unknown:
+            chk.obligation("FBG", construct, None)
+            chk.unknown_instance("FBG", construct, unknown)
+            continue
+        chk.obligation("FBG", construct, not bad, evaluations=cnt)
+        for a, got, want in bad:
+            cls = ("below-epsilon" if 0 < abs(a) < 1e-10 else "beyond-long-long" if abs(a) >= 2.0 ** 63 else
+                   "negative-fraction" if -1 < a < 0 else "other")
+            chk.violation("FBG", "%s [%s]" % (construct, cls), "constexpr-differs", "%s: in constant evaluation %s(%r) is %s; the run-time "
+                          "path (__builtin_%s) gives %r" % (astx.loc(f), y, a, got if isinstance(got, str) else repr(got), y, want),
+                          {"where": astx.loc(f), "arg": repr(a)})
+    chk.extra["dual_path_cmath_functions_evaluated"] = n
+    if n < 1:
+        chk.analysis_broken("FBG: no dual-path <cmath> function with an exactly specified builtin found (the rule lost its subject)")
 
 
 META_EXTRA = 'FB (library-local constant-evaluation helpers of exactly specified functions, evaluated over a finite floating-point class domain against the closed form); FBG (the vendored gcem implementation that constant evaluation uses where the run-time path is a builtin, evaluated from its own source over the same domain widened by tiny, huge and non-finite classes); SHIFT (shift counts below the promoted width of the left operand, symbolic type width).'
